@@ -416,9 +416,10 @@ def judge_reuse(case, rec=None, tag='reuse'):
         if ref is None:
             ref = _CACHE[('refparser', ver)] = new_parser(ver)      # never used for parsing
         attrs = _attr_diff(long, ref)
-        if got[0] == 'error' or got[0] == 'exc':
+        # classes describe the history itself (what a fresh parser does with each step), not the parser under test
+        if want[0] == 'error' or want[0] == 'exc':
             n_fail += 1
-        elif got[0] == 'tree':
+        elif want[0] == 'tree':
             n_ok += 1
             if failed_before:
                 ok_after_fail = True
